@@ -75,10 +75,11 @@ type zzvSCStep struct {
 	T zzvSCState `json:"t"`
 }
 
+// A path refers to the tables States / Acts of the input (large relations: every state and action is stored once).
 type zzvSCPath struct {
-	Label string      `json:"label"`
-	Init  zzvSCState  `json:"init"`
-	Steps []zzvSCStep `json:"steps"`
+	Label string   `json:"label"`
+	Init  int      `json:"init"`
+	Steps [][2]int `json:"steps"` // [action index, post-state index]
 }
 
 type zzvSCIn struct {
@@ -92,7 +93,13 @@ type zzvSCIn struct {
 	UnitMs   int            `json:"unit_ms"`
 	SlackMs  int            `json:"slack_ms"`
 	SpreadMs int            `json:"spread_ms"`
+	States   []zzvSCState   `json:"states"`
+	Acts     []zzvSCAct     `json:"acts"`
 	Paths    []zzvSCPath    `json:"paths"`
+}
+
+func (in *zzvSCIn) step(p *zzvSCPath, i int) zzvSCStep {
+	return zzvSCStep{A: in.Acts[p.Steps[i][0]], T: in.States[p.Steps[i][1]]}
 }
 
 // ---- recording peer sender ---------------------------------------------------------------------
@@ -488,18 +495,20 @@ func zzvSCSameSet(a, b []string) bool {
 }
 
 func zzvSCRunPath(t testing.TB, in *zzvSCIn, pi int, seed int64) map[string]any {
-	path := in.Paths[pi]
-	w := zzvSCNewWorld(t, in, path.Init.Key, seed+int64(pi))
+	path := &in.Paths[pi]
+	init := in.States[path.Init]
+	w := zzvSCNewWorld(t, in, init.Key, seed+int64(pi))
 	w.P = time.Now()
 	out := map[string]any{"path": pi, "label": path.Label, "steps": 0, "status": "ok"}
-	if !zzvSCSameState(w.state(), path.Init) {
+	if !zzvSCSameState(w.state(), init) {
 		out["status"] = "mismatch"
 		out["step"] = -1
 		out["real_t"] = w.state()
-		out["spec_t"] = path.Init
+		out["spec_t"] = init
 		return out
 	}
-	for si, stp := range path.Steps {
+	for si := range path.Steps {
+		stp := in.step(path, si)
 		prev := w.state()
 		if !w.inZone() {
 			out["status"] = "stalled"
@@ -527,11 +536,6 @@ func zzvSCRunPath(t testing.TB, in *zzvSCIn, pi int, seed int64) map[string]any 
 			out["spec_t"] = stp.T
 			out["real_t"] = now
 			out["detail"] = detail
-			pre := []zzvSCAct{}
-			for _, x := range path.Steps[:si+1] {
-				pre = append(pre, x.A)
-			}
-			out["prefix"] = pre
 			return out
 		}
 	}
